@@ -36,7 +36,7 @@ OPEN = {
 	'C15': 'Partial by nature: time zone, DST and locale are runtime environment. The model has no such input (that is the claim); the correspondence runs the real code in child processes under 6 zones × the installed locales and requires the one model answer. The asctime and RFC 850 forms are theorems as well (`asctime_roundtrip`, `rfc850_roundtrip` for the years 1970-2068 a two-digit year can name).',
 	'C16': '',
 	'C17': 'The parameter list of the field round-trips as a theorem (`params_roundtrip`); the dictionary lookups after it are tied by correspondence. Values with comma, quote, backslash: F20c.',
-	'C18': 'The model has no object state: re-parsing into one object is compared step by step with what a fresh object gives (correspondence and oracle).',
+	'C18': 'The negotiation clause is an invariant of the server-side loop (`Props/C18Invariant.lean`, the induction of C06 with the versions as the frozen fields). The model has no object state: re-parsing into one object is compared step by step with what a fresh object gives (correspondence and oracle).',
 	'C19': 'q texts that float() accepts outside the RFC grammar (`1e3`, `nan`) are outside the model and judged by the oracle.',
 	'C20': 'The float square root in the overlap test is modelled exactly in integers and validated by the correspondence.',
 }
